@@ -1,5 +1,7 @@
+pub mod c01;
 pub mod c02;
 pub mod c03;
+pub mod c09;
 pub mod c10;
 
 use crate::engine::Tier;
@@ -12,8 +14,10 @@ pub struct Args {
 
 pub fn dispatch(id: &str, args: Args) -> ! {
     match id {
+        "C01" => c01::run(args),
         "C02" => c02::run(args),
         "C03" => c03::run(args),
+        "C09" => c09::run(args),
         "C10" => c10::run(args),
         _ => crate::engine::fault(&format!("unknown property {id}")),
     }
